@@ -414,6 +414,21 @@ extern "C" {
       case 4: s->append(content(arr)->asslice()); break;
       case 5: s->append(ak::SliceField(std::string(sarg))); break;
       case 6: s->append(ak::SliceFields(split_csv(sarg))); break;
+      case 7: {
+        // an integer index array with more than one dimension (what the Python layer builds from a NumPy array):
+        // iargs = ndim, shape..., then the values in C order
+        int nd = (int)iargs[0];
+        if (nd < 1  ||  ni < 1 + nd) throw HarnessError("aws_slice_add: bad multi-dimensional index array");
+        std::vector<int64_t> shape, strides((size_t)nd, 1);
+        int64_t total = 1;
+        for (int d = 0;  d < nd;  d++) { shape.push_back((int64_t)iargs[1 + d]); total *= (int64_t)iargs[1 + d]; }
+        for (int d = nd - 2;  d >= 0;  d--) strides[(size_t)d] = strides[(size_t)d + 1] * shape[(size_t)d + 1];
+        if (ni != 1 + nd + total) throw HarnessError("aws_slice_add: index array values do not match its shape");
+        ak::Index64 index(total);
+        for (int64_t i = 0;  i < total;  i++) index.data()[i] = (int64_t)iargs[1 + nd + i];
+        s->append(ak::SliceArray64(index, shape, strides, false));
+        break;
+      }
       default: throw HarnessError("aws_slice_add: unknown kind");
     }
     return 1;
